@@ -17,7 +17,7 @@ func init() {
 		ID: "C17",
 		Explanation: `R17.1 skip touches nothing: in Resume the only call from which a bowl write/transpose or an old-build pool read is reachable is the call to processFile; skipFile's call tree contains none; processFile (with touchedFiles++) and skipFile sit on opposite outcomes of one branch that depends on the whitelist being non-nil and on the whitelist lookup keyed by sh.FileIndex; ` +
 			`R17.2 the skip path reads every message type the processing path reads for a series (sibling agreement); a type it would decode as another type must not alias the end-marker discriminator (field number + wire type from the generated struct tags); ` +
-			`R17.3 the whitelist is consulted only after the freshly read header was compared with the expected file index; ` +
+			`R17.3 a freshly read header is acted upon (skip or process) only after it was compared with the expected file index; ` +
 			`R17.4 the series kind that skipFile dispatches on is (re)assigned on every path from reading the header to the skip/process decision. ` +
 			`NOT decided: equality of the selected files with full application; that GetTouchedFiles equals the subset size.`,
 		Assumptions: []string{"effects are the Bowl methods GetWriter/Transpose and the lake.Pool methods GetSize/GetReader/GetReadSeeker; module-internal call graph (CHA) for reachability"},
@@ -241,9 +241,13 @@ func runC17(c *core.Ctx) {
 				}
 				return (bo.Op == token.NEQ && s == b.Succs[1]) || (bo.Op == token.EQL && s == b.Succs[0])
 			}
-			p := core.FindPathSkipping(resume, hdrRead, isInstr(lookup), nil, eqEdge)
-			c.Check(p == nil, "R17.3", core.FnName(resume), "whitelist lookup only after sh.FileIndex == c.FileIndex was established", core.InstrPos(lookup),
-				"from the header read, the lookup is reachable only through the 'indices agree' outcome", "the whitelist can be consulted with a header whose file index was not compared with the expected one").Path = c.P.PathStrings(p)
+			// demanded of the ACTIONS, not of the lookup itself (looking a bogus key up in a map is harmless):
+			// from the header read, skipFile / processFile are reachable only through the 'indices agree' outcome
+			for _, act := range []ssa.Instruction{skipCall, processCall} {
+				p := core.FindPathSkipping(resume, hdrRead, isInstr(act), nil, eqEdge)
+				c.Check(p == nil, "R17.3", core.FnName(resume), "a freshly read header is acted upon only after sh.FileIndex == c.FileIndex was established: "+core.CalleeName(act.(ssa.CallInstruction)), core.InstrPos(act),
+					"from the header read, the call is reachable only through the 'indices agree' outcome", "a file can be skipped or processed on the strength of a header whose file index was not compared with the expected one").Path = c.P.PathStrings(p)
+			}
 		}
 		// R17.4: which checkpoint fields does skipFile read? each must be stored on every path header read -> skipFile call
 		var cParam *ssa.Parameter
